@@ -81,11 +81,12 @@ void read_crs(
     precondition(f, "Failed to open matrix file");
 
     precondition(read(f, n), "File I/O error");
+    precondition(static_cast<ptrdiff_t>(n) >= 0, "Matrix file is corrupted (negative size)");
 
     if (row_beg < 0) row_beg = 0;
     if (row_end < 0) row_end = n;
 
-    precondition(row_beg >= 0 && row_end <= static_cast<ptrdiff_t>(n),
+    precondition(row_beg <= row_end && row_end <= static_cast<ptrdiff_t>(n),
             "Wrong subset of rows is requested");
 
     ptrdiff_t chunk = row_end - row_beg;
@@ -100,6 +101,10 @@ void read_crs(
     f.seekg(ptr_beg + n * sizeof(Ptr));
     precondition(read(f, nnz), "File I/O error");
 
+    precondition(ptr.front() >= 0 && ptr.back() <= nnz, "Matrix file is corrupted (row pointers out of range)");
+    for(ptrdiff_t i = 0; i < chunk; ++i)
+        precondition(ptr[i] <= ptr[i+1], "Matrix file is corrupted (row pointers are not monotone)");
+
     SizeT nnz_beg = ptr.front();
     if (nnz_beg) for(auto &p : ptr) p -= nnz_beg;
 
@@ -109,6 +114,8 @@ void read_crs(
     size_t col_beg = ptr_beg + (n + 1) * sizeof(Ptr);
     f.seekg(col_beg + nnz_beg * sizeof(Col));
     precondition(read(f, col), "File I/O error");
+    for(const Col &c : col)
+        precondition(c >= 0, "Matrix file is corrupted (negative column index)");
 
     f.seekg(col_beg + nnz * sizeof(Col) + nnz_beg * sizeof(Val));
     precondition(read(f, val), "File I/O error");
@@ -140,11 +147,13 @@ void read_dense(const std::string &fname,
 
     precondition(read(f, n), "File I/O error");
     precondition(read(f, m), "File I/O error");
+    precondition(static_cast<ptrdiff_t>(n) >= 0 && static_cast<ptrdiff_t>(m) >= 0,
+            "Matrix file is corrupted (negative size)");
 
     if (row_beg < 0) row_beg = 0;
     if (row_end < 0) row_end = n;
 
-    precondition(row_beg >= 0 && row_end <= static_cast<ptrdiff_t>(n),
+    precondition(row_beg <= row_end && row_end <= static_cast<ptrdiff_t>(n),
             "Wrong subset of rows is requested");
 
     ptrdiff_t chunk = row_end - row_beg;
